@@ -94,6 +94,9 @@ int rstr_find(struct rstr *rs, char *s, int n, int *grps, int flg)
 	if (rs->lbeg)
 		end = s;
 	for (r = beg; r <= end; r++) {
+		if ((((unsigned char) r[0]) & 0xc0) == 0x80 ||
+				(((unsigned char) r[len]) & 0xc0) == 0x80)
+			continue;	/* inside a multi-byte character */
 		if (rs->wbeg && ((r > s && isword(r - 1)) || !isword(r)))
 			continue;
 		if (rs->wend && (r + len == s || !isword(r + len - 1) ||
